@@ -153,6 +153,10 @@ class SymArray(ExtensionArray):
     def __array__(self, dtype=None, copy=None):
         return self._d.copy()
 
+    def reshape(self, *shape):
+        """`series.values.reshape(-1, 1)` (sklearn idiom): leaves pandas, continues as an object ndarray of cells"""
+        return self.to_numpy().reshape(*shape)
+
     def _values_for_argsort(self):
         raise NotImplementedError("argsort on symbolic values")
 
